@@ -260,6 +260,26 @@ func (ex *Exec) loopHeader(fr *Frame, h *ssa.BasicBlock, ord int, st *State, phi
 			m := env.intTerm(spec.Decreases)
 			ex.oblige(st, "decreases", fmt.Sprintf("loop%d", ord), []string{"C04"}, And(Lt(m, lc.measure), Ge(lc.measure, Int(0))), h.Instrs[0].Pos(), fk)
 		}
+		if len(spec.Steps) > 0 && fr.prev != nil && len(fr.prev.Instrs) > 0 && lc.start != nil {
+			at := fr.prev.Instrs[len(fr.prev.Instrs)-1]
+			for _, sc := range spec.Steps {
+				func() {
+					defer func() {
+						if r := recover(); r != nil {
+							if _, ok := r.(specErr); ok {
+								return // names a local that is not defined on this path through the body
+							}
+							panic(r)
+						}
+					}()
+					senv := ex.localEnv(fr, st, at)
+					senv.old = lc.start
+					g := senv.boolTerm(sc.Expr)
+					ex.clauseHit[fmt.Sprintf("step@loop%d#%s", ord, sc.Label)] = true
+					ex.oblige(st, "step", fmt.Sprintf("loop%d:%s", ord, sc.Label), sc.Props, g, at.Pos(), fk)
+				}()
+			}
+		}
 		return true
 	}
 	// loop entry
@@ -294,6 +314,9 @@ func (ex *Exec) loopHeader(fr *Frame, h *ssa.BasicBlock, ord int, st *State, phi
 		lc.measure = env.intTerm(spec.Decreases)
 	} else if ex.recording == nil && ex.quiet == 0 {
 		ex.noDecreases = append(ex.noDecreases, fmt.Sprintf("%s loop %d", fk, ord))
+	}
+	if len(spec.Steps) > 0 && ex.recording == nil {
+		lc.start = st.clone()
 	}
 	fr.loops[h] = lc
 	st.Trace = append(st.Trace, fmt.Sprintf("loop%d", ord))
@@ -507,6 +530,13 @@ func (ex *Exec) verifyFunction(fn *ssa.Function) (rep *FuncReport) {
 			for _, e := range ex.con.AtReturn {
 				if !ex.clauseHit["atreturn#"+e.Label] {
 					ex.unsupported["vacuous: atreturn clause ["+e.Label+"] was never in scope at a return"] = true
+				}
+			}
+			for ord, ls := range ex.con.Loops {
+				for _, e := range ls.Steps {
+					if !ex.clauseHit[fmt.Sprintf("step@loop%d#%s", ord, e.Label)] {
+						ex.unsupported[fmt.Sprintf("vacuous: step clause [%s] of loop %d was never in scope at the end of an iteration", e.Label, ord)] = true
+					}
 				}
 			}
 			for k, cls := range ex.con.Callsites {
